@@ -91,6 +91,74 @@ func init() {
 				c.declareFun("errMsg", []Sort{SInt}, SInt)
 				return []Term{Term{app("errMsg", fr.val(cc.Value)), SInt}}
 			}},
+		"encoding/json.Marshal": {reason: "json.Marshal returns fresh bytes whose content is jsonEnc(v); it does not fail on the payload structs of this package (string fields only)",
+			apply: func(fr *Frame, v *ssa.Call, cc *ssa.CallCommon, a []Term, at Term, st *State) []Term {
+				c := fr.c
+				arr := c.allocRef(st)
+				heap, _ := c.elemHeap(types.Typ[types.Uint8])
+				inner := c.fresh("json", ArraySort(SInt, SInt))
+				c.set(st, heap, Store(c.get(st, heap), arr, inner))
+				ln := c.fresh("jsonlen", SInt)
+				c.assert(Le(IntLit(0), ln))
+				sl := Term{app("mk-slice", arr, IntLit(0), ln, ln), SSlice}
+				e := c.fresh("jerr", SInt)
+				c.assume(at, Implies(Eq(e, IntLit(0)), Eq(c.bytesContent(st, sl), c.jsonEnc(a[0]))))
+				return []Term{sl, e}
+			},
+			writes: func(fr *Frame, cc *ssa.CallCommon, ws map[string]bool) {
+				h, _ := fr.c.elemHeap(types.Typ[types.Uint8])
+				ws[h] = true
+				ws["nextRef"] = true
+			}},
+		"encoding/json.Unmarshal": {reason: "json.Unmarshal succeeds iff jsonDecOK_T(content) and then stores jsonDec_T(content) in the target; on failure the target is unspecified",
+			apply: func(fr *Frame, v *ssa.Call, cc *ssa.CallCommon, a []Term, at Term, st *State) []Term {
+				c := fr.c
+				mi, ok := cc.Args[1].(*ssa.MakeInterface)
+				if !ok {
+					c.errorf("%s: json.Unmarshal target is not an address literal", funcKey(fr.fn))
+					return []Term{c.fresh("jerr", SInt)}
+				}
+				st2, ok := isStructPtr(mi.X.Type())
+				if !ok {
+					c.errorf("%s: json.Unmarshal into non-struct %s", funcKey(fr.fn), mi.X.Type())
+					return []Term{c.fresh("jerr", SInt)}
+				}
+				content := c.bytesContent(st, a[0])
+				dec, okT := c.jsonDec(st2, content)
+				e := c.fresh("jerr", SInt)
+				c.assert(Eq(Eq(e, IntLit(0)), okT))
+				if pl, isCell := fr.places[mi.X]; isCell && pl.Kind == "cell" {
+					junk := c.fresh("junk", dec.Sort)
+					c.set(st, pl.Heap, Ite(okT, dec, junk))
+					return []Term{e}
+				}
+				ref := fr.val(mi.X)
+				si := c.structInfoOf(st2)
+				for i, f := range si.fields {
+					heap, _, _ := c.fieldHeap(st2, i)
+					fv := Term{app(string(si.sort)+"_"+f.name, dec), f.sort}
+					junk := c.fresh("junk", f.sort)
+					c.set(st, heap, Store(c.get(st, heap), ref, Ite(okT, fv, junk)))
+				}
+				return []Term{e}
+			},
+			writes: func(fr *Frame, cc *ssa.CallCommon, ws map[string]bool) {
+				if mi, ok := cc.Args[1].(*ssa.MakeInterface); ok {
+					if al, isAl := mi.X.(*ssa.Alloc); isAl && localStructAlloc(al) {
+						name := fr.localCellName(al)
+						fr.c.cellVar(name, al.Type().Underlying().(*types.Pointer).Elem())
+						ws[name] = true
+						return
+					}
+					if st2, ok := isStructPtr(mi.X.Type()); ok {
+						si := fr.c.structInfoOf(st2)
+						for i := range si.fields {
+							h, _, _ := fr.c.fieldHeap(st2, i)
+							ws[h] = true
+						}
+					}
+				}
+			}},
 		"sort.Strings": {reason: "sort.Strings permutes the slice into ascending order",
 			apply: applySortStrings,
 			writes: func(fr *Frame, cc *ssa.CallCommon, ws map[string]bool) {
@@ -119,6 +187,37 @@ func (c *Enc) trimSpace(s Term) Term {
 		Implies(Eq(s, IntLit(0)), Eq(r, IntLit(0)))))
 	c.trusted["strings.TrimSpace"] = "TrimSpace is idempotent, maps \"\" to \"\" and never lengthens"
 	return r
+}
+
+// jsonEnc(any): the bytes encoding/json.Marshal produces, as an abstract string value. For a boxed
+// payload struct the round trip through Unmarshal is instantiated on this very term.
+func (c *Enc) jsonEnc(v Term) Term {
+	c.declareFun("jsonEnc", []Sort{SAny}, SInt)
+	r := Term{app("jsonEnc", v), SInt}
+	if strings.HasPrefix(v.S, "(box_") && !c.jsonSeen[r.S] {
+		if c.jsonSeen == nil {
+			c.jsonSeen = map[string]bool{}
+		}
+		c.jsonSeen[r.S] = true
+		key := strings.TrimPrefix(strings.SplitN(v.S, " ", 2)[0], "(box_")
+		if ty, ok := c.boxTypes[key]; ok {
+			if _, isStruct := ty.Underlying().(*types.Struct); isStruct && !strings.Contains(v.S, "!q") {
+				dec, okT := c.jsonDec(ty, r)
+				payload := Term{app("unbox_"+key, v), c.sortOf(ty)}
+				c.assert(And(okT, Eq(dec, payload)))
+				c.trusted["encoding/json round trip"] = "json.Unmarshal(json.Marshal(x)) = x for the flat string payload structs (valid UTF-8 strings)"
+			}
+		}
+	}
+	return r
+}
+
+func (c *Enc) jsonDec(ty types.Type, s Term) (Term, Term) {
+	name := structName(ty)
+	rs := c.sortOf(ty)
+	c.declareFun("jsonDec_"+name, []Sort{SInt}, rs)
+	c.declareFun("jsonDecOK_"+name, []Sort{SInt}, SBool)
+	return Term{app("jsonDec_"+name, s), rs}, Term{app("jsonDecOK_"+name, s), SBool}
 }
 
 func (c *Enc) fmtTime(t Term) Term {
@@ -271,6 +370,26 @@ func applySortSlice(fr *Frame, v *ssa.Call, cc *ssa.CallCommon, a []Term, at Ter
 		return nil
 	}
 	c.callees[funcKey(cmp)] = true
+	// the comparator's preconditions other than the index range (which sort.Slice guarantees) must hold here
+	c.callSeq[funcKey(cmp)]++
+	for _, cl := range fc.clauses("requires") {
+		if cl.Label == "idx" {
+			continue
+		}
+		x := &EvalCtx{c: c, fr: fr, st: st, old: st, vars: map[string]TV{}}
+		x.resolve = func(name string, xc *EvalCtx) (TV, bool) {
+			for k, fv := range cmp.FreeVars {
+				if fv.Name() == name && k < len(mc.Bindings) {
+					pl := fr.place(mc.Bindings[k])
+					return TV{fr.load(pl, xc.st), pl.Type}, true
+				}
+			}
+			return TV{}, false
+		}
+		if g, ok := x.evalBool(cl.Expr); ok {
+			c.oblige(fmt.Sprintf("%s/call:%s#%d[%s]", funcKey(c.top), funcKey(cmp), c.callSeq[funcKey(cmp)], cl.Label), "requires", at, g, cl.Text)
+		}
+	}
 	s := fr.val(mi.X)
 	heap, es := c.elemHeap(slT.Elem())
 	innerSort := ArraySort(SInt, es)
